@@ -1,5 +1,5 @@
 #!/usr/bin/env python3
-"""Processes one round of seeded changes produced in scratch worktrees /tmp/<prefix>-cNN/_mut/{1,2}:
+"""Processes one round of seeded changes produced in scratch worktrees /tmp/<prefix>-cNN/_mut/<k>:
 confirms each (demo passes without the change, fails with it, suites pass with it) and runs the
 property's own check (plus optional extra checks) on a scratch worktree via ./seedtest.sh.
 Usage: ./seedround.py <prefix> [Cnn ...]        e.g.  ./seedround.py wt3 C05 C12
@@ -43,7 +43,8 @@ def main():
     props = sys.argv[2:] or [f"C{i:02d}" for i in range(1, 21)]
     for p in props:
         wt = f"/tmp/{prefix}-{p.lower()}"
-        for k in (1, 2):
+        ks = sorted(int(x) for x in os.listdir(f"{wt}/_mut") if x.isdigit()) if os.path.isdir(f"{wt}/_mut") else []
+        for k in ks:
             m = f"{wt}/_mut/{k}"
             if not os.path.exists(f"{m}/patch.diff"):
                 print(f"## {p}/{k}: no patch")
